@@ -97,15 +97,50 @@ def stage2(d, ded):
     json.dump(res, open(d + 'stage2.json', 'w'), indent=1)
 
 
+PKG = {'': 'pipeline', 'ordered': 'ordered', 'signature': 'signature', 'jwkutil': 'jwkutil', 'warning': 'warning', 'internal/env': 'env'}
+_cones = None
+
+
+def norm_key(k):
+    import re
+    k = re.sub(r'\[.*\]', '', k)
+    k = re.sub(r'\$\d+.*$', '', k)
+    return k
+
+
+def cones():
+    """function key (generic arguments and closure suffixes stripped) -> properties whose cone holds it"""
+    global _cones
+    if _cones is None:
+        c = {}
+        for f in sorted(glob.glob(V + '/props/C*.json')):
+            cfg = json.load(open(f))
+            for fn in cfg.get('functions', []):
+                c.setdefault(norm_key(fn['key']), set()).add(cfg['id'])
+        _cones = c
+    return _cones
+
+
+def func_key(m):
+    pkg = PKG.get(os.path.dirname(m['file']), os.path.dirname(m['file']))
+    f = m['func']
+    if f.startswith('(*'):
+        return '(*' + pkg + '.' + f[2:]
+    if f.startswith('('):
+        return '(' + pkg + '.' + f[1:]
+    return pkg + '.' + f
+
+
 def deductive_only(d):
     if os.path.exists(d + 'ded.json'):
         return
     m = meta(d)
-    rel = [p for p in ORDER if p in props_by_file().get(m['file'], [])]
-    res = {'props': rel, 'killed_by': None, 'degraded': [], 'tried': []}
+    under = cones().get(func_key(m), set())
+    rel = [p for p in ORDER if p in under]
+    res = {'props': rel, 'func_key': func_key(m), 'killed_by': None, 'degraded': [], 'tried': []}
     for pid in rel:
         t0 = time.time()
-        rc, out = sh(f'bin/gowp mutant {d}patch.diff {pid} quick', V, ENV)
+        rc, out = sh(f'bin/gowp mutant {d}patch.diff {pid} quick', V, dict(ENV, GOWP_MUTANT_FUNC=func_key(m)))
         line = [l for l in out.splitlines() if l.startswith('MUTANT')]
         r = line[-1].split('result=')[1].split()[0] if line else 'error'
         res['tried'].append([pid, r, round(time.time() - t0, 1)])
@@ -119,6 +154,7 @@ def deductive_only(d):
 
 def main():
     stage = sys.argv[1]
+    cones()
     workers = int(os.environ.get('AUTOMUT_JOBS', '12'))
     ms = mutants()
     if stage == 'stage1':
@@ -129,13 +165,23 @@ def main():
         todo = [d for d in ms if open(d + 'stage1.txt').read().strip() == 'tests-pass']
         with ThreadPoolExecutor(workers) as ex:
             list(ex.map(lambda d: stage2(d, ded), todo))
+    elif stage == 'stage3':
+        # deductive part for the mutants no bounded stand-in reported
+        todo = []
+        for d in ms:
+            if os.path.exists(d + 'stage2.json'):
+                r = json.load(open(d + 'stage2.json'))
+                if not r['killed_by'] and r['props']:
+                    todo.append(d)
+        with ThreadPoolExecutor(max(1, workers // 4)) as ex:
+            list(ex.map(deductive_only, todo))
     elif stage == 'deductive':
         n = int(sys.argv[2])
         todo = [d for d in ms if open(d + 'stage1.txt').read().strip() == 'tests-pass']
         random.Random(1).shuffle(todo)
         with ThreadPoolExecutor(max(1, workers // 4)) as ex:
             list(ex.map(deductive_only, todo[:n]))
-    if stage in ('report', 'stage1', 'stage2', 'deductive'):
+    if stage in ('report', 'stage1', 'stage2', 'stage3', 'deductive'):
         c = {}
         surv = []
         for d in ms:
@@ -145,8 +191,11 @@ def main():
             key = s1
             if s1 == 'tests-pass' and os.path.exists(d + 'stage2.json'):
                 r = json.load(open(d + 'stage2.json'))
+                r3 = json.load(open(d + 'ded.json')) if os.path.exists(d + 'ded.json') else None
                 if r['killed_by']:
                     key = 'tests-pass, killed by ' + r['killed_by'].split(':')[0].split()[0]
+                elif r3 and r3['killed_by']:
+                    key = 'tests-pass, killed by a named obligation (no bounded stand-in reported it)'
                 elif not r['props']:
                     key = 'tests-pass, file anchors no property'
                 else:
